@@ -86,13 +86,15 @@ def make_problem(g, enc, nobj, n, k):
     P = importlib.import_module("pybrops.breed.prot.sel.prob.EstimatedBreedingValueSelectionProblem")
     cls = getattr(P, "EstimatedBreedingValue%sSelectionProblem" % enc)
     ntrait = max(nobj, int(g.integers(1, 4)))
-    ebv = g.normal(size=(n, ntrait))
+    nrow = n + (int(g.integers(1, 6)) if enc == "Subset" and g.random() < 0.5 else 0)     # candidate set may be a proper subset of the rows
+    rows = numpy.sort(g.choice(nrow, n, replace=False)).astype("int64")
+    ebv = g.normal(size=(nrow, ntrait))
     dcls = str(g.choice(["plain", "ties", "pairwise", "plateau", "constrained", "constrained", "multi-constraint", "multi-constraint"]))
     if dcls == "ties":
         ebv = numpy.round(ebv)
     K = None
     if dcls == "pairwise":
-        A = g.normal(size=(n, n)); K = 0.3 * (A @ A.T) / n
+        A = g.normal(size=(nrow, nrow)); K = 0.3 * (A @ A.T) / nrow
         obj_trans = Trans("pairwise", nobj, K=K, enc=enc)
     elif dcls == "plateau":
         obj_trans = Trans("plateau", nobj)
@@ -104,7 +106,7 @@ def make_problem(g, enc, nobj, n, k):
         kw = dict(nineqcv=1, ineqcv_wt=numpy.array([1.0]), ineqcv_trans=Trans("cons", 1, thr=thr))
     if dcls == "multi-constraint":
         ng = int(g.integers(2, 4))
-        memb = g.integers(0, ng, n)
+        memb = g.integers(0, ng, nrow)
         Gm = numpy.stack([(memb == j).astype(float) for j in range(ng)])
         cap = float(g.choice([0.0, 1.0])) if enc != "Real" else 0.2
         kw = dict(nineqcv=ng, ineqcv_wt=g.choice([1.0, 1.0, 2.0], ng), ineqcv_trans=Trans("groups", ng, K=Gm, thr=cap, enc=enc))
@@ -112,14 +114,18 @@ def make_problem(g, enc, nobj, n, k):
             ebv = numpy.round(ebv)      # ties in the objective make equal-violation exchanges frequent
     wt = g.choice([1.0, 1.0, 2.0, -1.0], nobj) if g.random() < 0.3 else numpy.ones(nobj)
     if enc == "Subset":
-        space = numpy.sort(g.choice(3 * n, n, replace=False)).astype("int64") if False else numpy.arange(n)
-        prob = cls(ebv=ebv, ndecn=k, decn_space=space, decn_space_lower=numpy.repeat(0, k), decn_space_upper=numpy.repeat(n - 1, k),
+        space = rows
+        prob = cls(ebv=ebv, ndecn=k, decn_space=space, decn_space_lower=numpy.repeat(int(rows.min()), k), decn_space_upper=numpy.repeat(int(rows.max()), k),
                    nobj=nobj, obj_wt=wt, obj_trans=obj_trans, **kw)
     else:
         lo, up = BOUNDS[enc]
         ds = numpy.stack([numpy.repeat(lo, n), numpy.repeat(up, n)])
         prob = cls(ebv=ebv, ndecn=n, decn_space=ds, decn_space_lower=numpy.repeat(lo, n), decn_space_upper=numpy.repeat(up, n),
                    nobj=nobj, obj_wt=wt, obj_trans=obj_trans, **kw)
+        if enc in ("Integer", "Real") and g.random() < 0.3:      # tighten the bounds afterwards through the public setters
+            nlo = numpy.repeat(1 if enc == "Integer" else 0.25, n); nup = numpy.repeat(2 if enc == "Integer" else 0.5, n)
+            prob.decn_space_lower = nlo; prob.decn_space_upper = nup; prob.decn_space = numpy.stack([nlo, nup])
+            dcls += "/bounds changed through setters"
     return prob, dcls, ebv
 
 
@@ -153,6 +159,9 @@ def dominated_member(F, CV):
     return None
 
 
+LIVE = {}      # optimiser class -> (object, hyper-parameters, (n, k)) kept alive across cases of one shard
+
+
 def one_run(ctx, c, family="opt"):
     g = ctx.rng(family, c)
     if family == "opt":
@@ -164,7 +173,10 @@ def one_run(ctx, c, family="opt"):
     single = name in SINGLE
     nobj = 1 if single else int(g.choice([2, 2, 3]))
     n = int(g.integers(2, 13)); k = int(g.integers(1, n + 1))
-    if enc == "Subset" and g.random() < 0.3:
+    reuse = name in LIVE and g.random() < 0.5
+    if reuse and g.random() < 0.7:
+        n, k = LIVE[name][2]           # same dimensions as the previous problem of this live optimiser, other candidates/data
+    elif enc == "Subset" and g.random() < 0.3:
         k = n if g.random() < 0.5 else max(1, n - 1)      # candidate-set size == / just above subset size
     prob, dcls, ebv = make_problem(g, enc, nobj, n, k)
     sig = inspect.signature(cls.__init__).parameters
@@ -186,7 +198,7 @@ def one_run(ctx, c, family="opt"):
     coords = [c, family]
     if name == "NSGA3SubsetGeneticAlgorithm":
         kw["pop_size"] = int(g.choice([10, 15, 21, 28, 36]))   # sizes for which uniform reference directions exist (2 and 3 objectives)
-    icls = "%s encoding%s" % (enc, "/ndecn==|space|" if enc == "Subset" and k == n else "")
+    icls = "%s encoding%s%s" % (enc, "/ndecn==|space|" if enc == "Subset" and k == n else "", "/optimiser object re-used" if reuse else "")
     pcls = dcls
     ctx.case("%s/%s/%s" % (name, dcls, rcls), name, sorted(kw.items(), key=str)[:2], ebv, k, nobj, trivial=n < 2)
     if c % 37 == 0:
@@ -194,7 +206,12 @@ def one_run(ctx, c, family="opt"):
                     "hyper": {a: b for a, b in kw.items() if a != "rng"}, "rng": rcls})
     d0 = prob_digest(prob)
     try:
-        algo = cls(**kw)
+        if reuse:
+            algo, kw = LIVE[name][0], LIVE[name][1]
+            ctx.sumnote("runs on an optimiser object that already solved another problem")
+        else:
+            algo = cls(**kw)
+        LIVE[name] = (algo, kw, (n, k))
         soln = algo.minimize(prob)
     except Exception as e:
         ctx.raised("%s.minimize [%s, %s problem]" % (name, icls, pcls), e)
@@ -216,11 +233,11 @@ def one_run(ctx, c, family="opt"):
             if len(x) == k and numpy.isin(x, prob.decn_space).all() and not good:
                 rel = "subset members are pairwise distinct"
         elif enc == "Real":
-            lo, up = BOUNDS[enc]
-            good = bool(numpy.all(numpy.isfinite(x)) and numpy.all(x >= lo - 1e-12) and numpy.all(x <= up + 1e-12)) and len(x) == n
+            lo, up = numpy.asarray(prob.decn_space_lower, dtype=float), numpy.asarray(prob.decn_space_upper, dtype=float)
+            good = len(x) == n and bool(numpy.all(numpy.isfinite(x)) and numpy.all(x >= lo - 1e-12) and numpy.all(x <= up + 1e-12))
             rel = "real vector finite and within bounds"
         else:
-            lo, up = BOUNDS[enc]
+            lo, up = numpy.asarray(prob.decn_space_lower, dtype=float), numpy.asarray(prob.decn_space_upper, dtype=float)
             xf = numpy.asarray(x, dtype=float)
             good = len(x) == n and bool(numpy.all(xf == numpy.round(xf)) and numpy.all(xf >= lo) and numpy.all(xf <= up)) and \
                 (numpy.asarray(x).dtype.kind in "iub" or enc == "Binary")
@@ -252,7 +269,7 @@ def one_run(ctx, c, family="opt"):
                   witness=dict(w, dominated_pair=dm, objectives=Ff, violation=CV), coords=coords)
     # ---- exhaustive sorting optimiser on separable problems
     if name == "SortingSubsetOptimizationAlgorithm" and dcls in ("plain", "ties") and n <= 12:
-        best = min(float(numpy.sum(prob.evalfn(numpy.array(s))[0])) for s in itertools.combinations(range(n), k))
+        best = min(float(numpy.sum(prob.evalfn(numpy.array(s))[0])) for s in itertools.combinations(prob.decn_space.tolist(), k))
         got = float(numpy.sum(fresh[0][0]))
         ctx.check("C06.sorting", got <= best + TOL * (1 + abs(best)), site, "attains the brute-force optimum of a separable problem", icls,
                   witness=dict(w, got=got, brute_force=best), coords=coords)
